@@ -15,7 +15,9 @@ CFG = dict(
          "basis does NOT span a constant (pulse shapes, projectors orthogonal to a constant) on well-fitted high-baseline records, so the "
          "residual has a mean of tens of thousands and a spread below one count; the residual standard deviation is judged against the exact "
          "population variance within the rounding of the correct two-pass algorithm (relative ~L*2^-53 plus the measured effect of the rounded "
-         "coefficients, about 1e-9; derivation in Model/C13.lean residBand and notes/C13.md). "
+         "coefficients, about 1e-9; derivation in Model/C13.lean residBand and notes/C13.md); 10% of all cases hit exact-zero intermediate values "
+         "(signed records whose pre- and/or post-trigger samples cancel to sum 0, all-zero and constant records, peak exactly at the baseline), "
+         "mostly with projectors loaded. "
          "Every float64 result crosses as its IEEE bit pattern; the Lean driver turns it into an exact rational, evaluates the DEFINITIONS "
          "exactly (Rat) on the integer record and the exact value of every matrix entry and demands agreement within the stated rounding "
          "tolerances (RMS and residual std-dev on squares); NaN/Inf where the definition is finite is a violation; the float32 values of the "
